@@ -239,3 +239,78 @@ func H_C12_group_token() {
 	vAssert(err != nil && err.Error()+ErrEndFlag == want, "C12 group rule retained across later quoted splits")
 	vReach("end")
 }
+
+// the call leaves collections inside its input untouched: element order and content of slices, arrays
+// and maps handed to rules that look at every element (unique, in, size rules), by value and by pointer
+type vC12Coll struct {
+	L []string          `valid:"unique,required"`
+	N []int             `valid:"unique,le=5"`
+	A [3]string         `valid:"unique"`
+	M map[string]string `valid:"required"`
+	S string            `valid:"unique,in=(b,a/c)"`
+	F []float64         `valid:"unique"`
+}
+
+func H_C12_collections_unmodified() {
+	a, b, c := vStr("a"), "b", "a"
+	l := []string{a, b, c}
+	n := []int{3, vndInt("n1"), 2}
+	n1 := n[1]
+	f := []float64{2.5, 1.5, 2.5}
+	m := map[string]string{"k": b}
+	o := vC12Coll{L: l, N: n, A: [3]string{c, b, a}, M: m, S: "b,a", F: f}
+	switch vndChoice("carrier", 6) {
+	case 0:
+		_ = Struct(o)
+	case 1:
+		_ = Struct(&o)
+	case 2:
+		_ = Var(l, "unique", "ge=1")
+		_ = Var(n, "unique")
+		_ = Var(f, "unique")
+	case 3:
+		_ = Map(map[string][]string{"k": l}, NewRule().Set("k", "unique,required"))
+		_ = Map(map[string]interface{}{"k": n, "f": f}, NewRule().Set("k,f", "unique"))
+	case 4:
+		_ = Struct([]vC12Coll{o, o})
+	case 5:
+		_ = Struct(&o, RM{"L": "unique|dup", "N": "unique,ge=1", "F": "unique,unique"})
+	}
+	vAssert(len(l) == 3 && l[0] == a && l[1] == b && l[2] == c, "C12 []string input keeps its elements in place")
+	vAssert(len(n) == 3 && n[0] == 3 && n[1] == n1 && n[2] == 2, "C12 []int input keeps its elements in place")
+	vAssert(len(f) == 3 && f[0] == 2.5 && f[1] == 1.5 && f[2] == 2.5, "C12 []float64 input keeps its elements in place")
+	vAssert(o.A[0] == c && o.A[1] == b && o.A[2] == a && o.S == "b,a", "C12 array and string fields unchanged")
+	vAssert(len(m) == 1 && m["k"] == b, "C12 map input unchanged")
+	vReach("end")
+}
+
+// rule maps of every shape stay as the caller wrote them: keys naming several fields, empty rules,
+// keys that match no field, through every entry point that takes one
+func H_C12_rule_maps_unmodified() {
+	vPoolMode([]string{"lifo", "adversarial"}[vndChoice("pool", 2)])
+	vUNoFail = true
+	vGlobalRules()
+	rm := RM{"A,B": "required", "B": "r1", " C": "r2", "Nope": "", "A": "r2,required|need A"}
+	before := vCopyRM(rm)
+	o := &vT1{A: vStr("A"), B: vStr("B"), C: "c"}
+	switch vndChoice("entry", 7) {
+	case 0:
+		_ = Struct(o, rm)
+	case 1:
+		_ = NewVStruct().SetRule(rm).Valid(o)
+	case 2:
+		_ = NewVStruct().SetRule(rm, o).Valid(o)
+	case 3:
+		_ = NestedStructForRule(&vT2{A: "a", N: *o}, map[interface{}]RM{vT1{}: rm})
+	case 4:
+		_ = Map(map[string]string{"A": o.A, "B": o.B}, rm)
+	case 5:
+		_ = Url("h?A="+vPlainText("u", 1)+"&B=1", rm)
+	case 6:
+		_ = Struct(o, rm)
+		_ = Map(map[string]string{"A": o.A}, rm)
+		_ = Struct(o, rm)
+	}
+	vAssert(vSameRM(rm, before), "C12 rule map unmodified")
+	vReach("end")
+}
